@@ -575,20 +575,23 @@ pub fn record_one_or_many(seed: u64, n: u64, out: &mut TraceOut) {
 }
 
 pub fn replay(cases: &[Value], rep: &mut Report) {
-  let mut os = Vec::new();
-  let mut oos = Vec::new();
-  let mut oom = Vec::new();
-  for c in cases {
-    match c.get("m").and_then(|m| m.as_str()) {
-      Some("oos") => oos.push(c.clone()),
-      Some("oom") => oom.push(c.clone()),
-      _ => os.push(c.clone()),
+  par_replay(cases, rep, |chunk, r| {
+    for c in chunk {
+      let one = std::slice::from_ref(c);
+      match c.get("m").and_then(|m| m.as_str()) {
+        Some("oos") => {
+          replay_one_or_set(one, r);
+          r.add("one_or_set_cases", 1);
+        }
+        Some("oom") => {
+          replay_one_or_many(one, r);
+          r.add("one_or_many_cases", 1);
+        }
+        _ => {
+          replay_ordered_set(one, r);
+          r.add("ordered_set_cases", 1);
+        }
+      }
     }
-  }
-  replay_ordered_set(&os, rep);
-  replay_one_or_set(&oos, rep);
-  replay_one_or_many(&oom, rep);
-  rep.add("ordered_set_cases", os.len() as u64);
-  rep.add("one_or_set_cases", oos.len() as u64);
-  rep.add("one_or_many_cases", oom.len() as u64);
+  });
 }
